@@ -22,7 +22,8 @@
  *   fc<i>=<c>              set the cookie of descriptor object i to cookie value c
  *   fx<i>                  free the (unregistered) struct and allocate a fresh poisoned one
  *   ks<i>=<conds>          kernel: set ground-truth conditions of descriptor 100+i (letters i o h e)
- *   kc<i>  ko<i>           kernel: close / (re)open descriptor 100+i
+ *   kc<i>  ko<i>           kernel: close (only while object i is unregistered) / (re)open descriptor 100+i
+ *                          (fr<i> is skipped while the descriptor is closed; ft<i> is how a bad descriptor is probed)
  *   tr<j>@<ns> tr<j>+<ns>  iv_timer_register with absolute / now-relative expiry;  tu<j>;  tx<j>
  *   kr<j> ku<j> kx<j>      iv_task_register / unregister / free+fresh (IV_TASK_INIT stamps the epoch)
  *   er<j> eu<j> ep<j> ex<j>  iv_event register / unregister / post / free+fresh
@@ -263,19 +264,26 @@ static void do_action(const char *a)
 
 		switch (a[1]) {
 		case 'r':
-			if (!iv_fd_registered(f))
+			if (!iv_fd_registered(f) && vk_get(f->fd) != NULL && !vk_get(f->fd)->closed) {
+				vk_trace("a %s", a);
 				iv_fd_register(f);
+			}
 			break;
 		case 't':
 			if (!iv_fd_registered(f)) {
-				int rc = iv_fd_register_try(f);
+				int rc;
+
+				vk_trace("a %s", a);
+				rc = iv_fd_register_try(f);
 
 				vk_trace("A ft%d=%d", i, rc ? -1 : 0);
 			}
 			break;
 		case 'u':
-			if (iv_fd_registered(f))
+			if (iv_fd_registered(f)) {
+				vk_trace("a %s", a);
 				iv_fd_unregister(f);
+			}
 			break;
 		case 'h': {
 			const char *p = a + 2;
@@ -286,6 +294,7 @@ static void do_action(const char *a)
 				p++;
 			band = *p == 'i' ? 0 : *p == 'o' ? 1 : 2;
 			p++;
+			vk_trace("a %s", a);
 			if (*p == '-') {
 				h = NULL;
 			} else {
@@ -312,11 +321,13 @@ static void do_action(const char *a)
 		case 'c': {
 			const char *eq = strchr(a, '=');
 
+			vk_trace("a %s", a);
 			f->cookie = &cookies[idx(eq + 1)];
 			break;
 		}
 		case 'x':
 			if (!iv_fd_registered(f)) {
+				vk_trace("a %s", a);
 				release(f, sizeof(*f));
 				new_fd(i);
 			}
@@ -331,6 +342,7 @@ static void do_action(const char *a)
 			const char *eq = strchr(a, '=');
 			struct vk_fd *v = vk_get(VK_USER_BASE + i);
 
+			vk_trace("a %s", a);
 			if (v != NULL)
 				v->cond = cond_of(eq ? eq + 1 : "");
 			break;
@@ -338,31 +350,40 @@ static void do_action(const char *a)
 		case 'c': {
 			struct vk_fd *v = vk_get(VK_USER_BASE + idx(a + 2));
 
+			if (iv_fd_registered(ofd[idx(a + 2)]))
+				break;
+			vk_trace("a %s", a);
 			if (v != NULL)
 				v->closed = 1;
 			break;
 		}
 		case 'o':
+			vk_trace("a %s", a);
 			vk_user_fd(idx(a + 2));
 			break;
 		case 'r': {
 			int j = idx(a + 2);
 
-			if (!iv_task_registered(otk[j]))
+			if (!iv_task_registered(otk[j])) {
+				vk_trace("a %s", a);
 				iv_task_register(otk[j]);
+			}
 			break;
 		}
 		case 'u': {
 			int j = idx(a + 2);
 
-			if (iv_task_registered(otk[j]))
+			if (iv_task_registered(otk[j])) {
+				vk_trace("a %s", a);
 				iv_task_unregister(otk[j]);
+			}
 			break;
 		}
 		case 'x': {
 			int j = idx(a + 2);
 
 			if (!iv_task_registered(otk[j])) {
+				vk_trace("a %s", a);
 				release(otk[j], sizeof(struct iv_task));
 				new_task(j);
 			}
@@ -388,15 +409,19 @@ static void do_action(const char *a)
 				}
 				otm[j]->expires.tv_sec = v / 1000000000LL;
 				otm[j]->expires.tv_nsec = v % 1000000000LL;
+				vk_trace("a tr%d@%lld", j, v);
 				iv_timer_register(otm[j]);
 			}
 			break;
 		case 'u':
-			if (iv_timer_registered(otm[j]))
+			if (iv_timer_registered(otm[j])) {
+				vk_trace("a %s", a);
 				iv_timer_unregister(otm[j]);
+			}
 			break;
 		case 'x':
 			if (!iv_timer_registered(otm[j])) {
+				vk_trace("a %s", a);
 				release(otm[j], sizeof(struct iv_timer));
 				new_timer(j);
 			}
@@ -410,7 +435,10 @@ static void do_action(const char *a)
 		switch (a[1]) {
 		case 'r':
 			if (!ev_reg[j]) {
-				int rc = iv_event_register(oev[j]);
+				int rc;
+
+				vk_trace("a %s", a);
+				rc = iv_event_register(oev[j]);
 
 				vk_trace("A er%d=%d", j, rc ? -1 : 0);
 				if (rc == 0)
@@ -419,16 +447,20 @@ static void do_action(const char *a)
 			break;
 		case 'u':
 			if (ev_reg[j]) {
+				vk_trace("a %s", a);
 				iv_event_unregister(oev[j]);
 				ev_reg[j] = 0;
 			}
 			break;
 		case 'p':
-			if (ev_reg[j])
+			if (ev_reg[j]) {
+				vk_trace("a %s", a);
 				iv_event_post(oev[j]);
+			}
 			break;
 		case 'x':
 			if (!ev_reg[j]) {
+				vk_trace("a %s", a);
 				release(oev[j], sizeof(struct iv_event));
 				new_event(j);
 			}
@@ -442,7 +474,10 @@ static void do_action(const char *a)
 		switch (a[1]) {
 		case 'r':
 			if (!rw_reg[j]) {
-				int rc = iv_event_raw_register(orw[j]);
+				int rc;
+
+				vk_trace("a %s", a);
+				rc = iv_event_raw_register(orw[j]);
 
 				vk_trace("A rr%d=%d", j, rc ? -1 : 0);
 				if (rc == 0)
@@ -451,16 +486,20 @@ static void do_action(const char *a)
 			break;
 		case 'u':
 			if (rw_reg[j]) {
+				vk_trace("a %s", a);
 				iv_event_raw_unregister(orw[j]);
 				rw_reg[j] = 0;
 			}
 			break;
 		case 'p':
-			if (rw_reg[j])
+			if (rw_reg[j]) {
+				vk_trace("a %s", a);
 				iv_event_raw_post(orw[j]);
+			}
 			break;
 		case 'x':
 			if (!rw_reg[j]) {
+				vk_trace("a %s", a);
 				release(orw[j], sizeof(struct iv_event_raw));
 				new_raw(j);
 			}
@@ -469,9 +508,11 @@ static void do_action(const char *a)
 		break;
 	}
 	case 'q':
+		vk_trace("a q");
 		iv_quit();
 		break;
 	case 'c':
+		vk_trace("a %s", a);
 		if (a[1] == 'a')
 			vk_clock += atoll(a + 2);
 		else if (a[1] == 'i')
@@ -680,21 +721,21 @@ static void run_case(char *line)
 
 	run_script(&setup);
 
+	vk_trace("M");
 	iv_main();
 	vk_trace("E q=%d n=%d", st->quit, st->numobjs);
 
 	/* tear-down: unregister what is left, free everything, deinit */
 	for (i = 0; i < NOBJ; i++) {
-		if (iv_fd_registered(ofd[i]))
-			iv_fd_unregister(ofd[i]);
-		if (iv_timer_registered(otm[i]))
-			iv_timer_unregister(otm[i]);
-		if (iv_task_registered(otk[i]))
-			iv_task_unregister(otk[i]);
-		if (ev_reg[i])
-			iv_event_unregister(oev[i]);
-		if (rw_reg[i])
-			iv_event_raw_unregister(orw[i]);
+		static const char *kinds[] = { "fu", "tu", "ku", "eu", "ru" };
+		int k;
+
+		for (k = 0; k < 5; k++) {
+			char tok[16];
+
+			snprintf(tok, sizeof(tok), "%s%d", kinds[k], i);
+			do_action(tok);
+		}
 	}
 	vk_trace("T n=%d", st->numobjs);
 	for (i = 0; i < NOBJ; i++) {
